@@ -23,7 +23,7 @@ C2 = np.array([-0.5, 1.0])
 C3 = np.array([1.0, -1.0])
 
 RO_DECL = ['lin', 'bnd', 'soc', 'ipc', 'exp', 'rown', 'rdef', 'late', 'adapt', 'pow', 'rsoc', 'ent']
-DRO_DECL = ['lin', 'bnd', 'soc', 'ipc', 'exp', 'rob', 'ecn', 'late', 'evt', 'pow', 'rsoc', 'ent']
+DRO_DECL = ['lin', 'bnd', 'soc', 'ipc', 'exp', 'rob', 'ecn', 'late', 'evt', 'pow', 'rsoc', 'ent', 'lsupp', 'lexp', 'lprob']
 OPS = ['P', 'D', 'S', 'Sd', 'Q', 'G']
 
 
@@ -71,7 +71,7 @@ def base(fe, late_first=False):
         e.f = f
         m.st(e.x >= 0)
         m.st(e.v >= 0)
-        m.minsup(rso.E(rso.maxof(e.z @ C0, -(e.z @ C0))) + W @ e.x + 4 * e.v, f)
+        m.minsup(rso.E(rso.maxof(e.z @ C0 + 0.5, -0.5 * (e.z @ C0))) + W @ e.x + 4 * e.v, f)
         e.nops += 11
     return e
 
@@ -124,6 +124,12 @@ def declare(e, name):
         elif name == 'evt':
             e.v.adapt(0)
             m.st(e.v >= 1 + z @ C3)
+        elif name == 'lsupp':       # the support of scenario 0 is re-defined (tighter, different constraint classes)
+            e.f[0].suppset(rso.norm(z, 1) <= 1.25, z <= 0.75)
+        elif name == 'lexp':        # one more (tighter) expectation constraint
+            e.f.exptset(rso.E(z) <= 0.0625, rso.E(z) >= -0.0625)
+        elif name == 'lprob':       # the probability set is re-defined
+            e.f.probset(m.p <= np.array([0.5, 0.875]))
         else:
             raise ValueError(name)
     e.declared.append(name)
@@ -263,6 +269,11 @@ def run_word(fe, word, final=True):
         try:
             obs = apply_op(e, sym)
         except Exception as ex:  # noqa
+            if sym.startswith('st:') and isinstance(ex, SyntaxError):
+                # a declaration refused loudly at hand-over by an order-of-declaration contract of the API
+                # ("Adaptation must be defined before ..."): the history does not lead to a declared model
+                return {'fail': None, 'both_raise': 'contract:' + C.exc_class(ex), 'k': k, 'checks': checks,
+                        'env': e, 'sets': len(decl_sets), 'vac': vac}
             if sym.startswith('st:'):
                 # would a fresh canonical build accept this declaration?
                 ref = fresh(fe, tuple(e.declared) + (sym[3:],), 'P')
@@ -375,6 +386,8 @@ def _step(e, sym):
     try:
         obs = apply_op(e, sym)
     except Exception as ex:  # noqa
+        if sym.startswith('st:') and isinstance(ex, SyntaxError):
+            return None, False
         if sym.startswith('st:'):
             ref = fresh(e.fe, tuple(e.declared) + (sym[3:],), 'P')
         else:
